@@ -7,6 +7,7 @@ cd /verif || exit 2
 if [ -n "$(git -C /repo status --porcelain --untracked-files=no)" ]; then echo "/repo is dirty; refusing"; exit 2; fi
 git -C /repo apply "$patch" || { echo "patch does not apply"; exit 2; }
 rc_all=0
+export VERIF_EVIDENCE=/tmp/seedtest-evidence
 for id in "$@"; do
   out=$(./check "$id" --tier quick 2>&1); rc=$?
   echo "== $id rc=$rc"; echo "$out" | grep -E "^(VIOLATION|KNOWN-FINDING|OK)|^  \[" | head -8
